@@ -133,9 +133,47 @@ def dense_input(case, cdir, stats):
     return X, notes
 
 
+def affinity_worker(case):
+    """Same content, same configuration, two processes that differ only in how many CPUs they may use: the file must not differ
+    (chunks beyond 1 MiB included, where a compressor could decide to split the work)."""
+    cdir = case["dir"]
+    keep = False
+    os.makedirs(cdir, exist_ok=True)
+    X = gen.content(*case["content"])
+    cid = core.h8(["affinity", case["content"], case["cfg"], case["seg"]])
+    stats = {"affinity_pairs": 1}
+    try:
+        outs = {}
+        for tag, prefix in (("all", []), ("one", ["taskset", "-c", str(case["cpu"])])):
+            files = {"in.dat": X}
+            w = core.run_zh(case["zh"], os.path.join(cdir, tag), gen.writer_script(case["cfg"], seg=case["seg"]), files, name="w", prefix=prefix, cpu=120)
+            cs = core.crash_signatures(w)
+            if cs:
+                keep = True
+                return core.verdict(cid, "violated", cs[:1], stats, detail="writer crashed (%s): %s" % (tag, cs), cdir=cdir, case=case)
+            cl = w.first(op="close")
+            if not cl or cl["rc"] != 1:
+                return core.verdict(cid, "inconclusive", detail="writer failed (%s): rc=%s %r" % (tag, w.rc, w.stderr[-200:]), case=case)
+            outs[tag] = open(os.path.join(cdir, tag, "out.zck"), "rb").read()
+        _, t = chunk_table(outs["all"])
+        stats["affinity_largest_chunk"] = [max([c["u1"] - c["u0"] for c in t] or [0])]
+        if outs["all"] != outs["one"]:
+            keep = True
+            _, t1 = chunk_table(outs["one"])
+            kind = "boundaries" if [c["u1"] for c in t] != [c["u1"] for c in t1] else "stored-bytes"
+            return core.verdict(cid, "violated", ["c16:nondeterministic:%s:cpu-affinity" % kind], stats,
+                                detail="file written with all CPUs differs from the file written pinned to CPU %d (%d vs %d bytes) cfg=%s" % (case["cpu"], len(outs["all"]), len(outs["one"]), case["cfg"]),
+                                cdir=cdir, case=case)
+        return core.verdict(cid, "held", stats=stats, nontrivial=True, sample={"affinity": True, "cfg": case["cfg"], "content": case["content"], "largest_chunk": stats["affinity_largest_chunk"]})
+    finally:
+        core.cleanup_case(cdir, keep)
+
+
 def worker(case):
     if case.get("kind") == "cli":
         return cli_worker(case)
+    if case.get("kind") == "affinity":
+        return affinity_worker(case)
     cdir = case["dir"]
     keep = False
     r = core.rng(case["i"], "C16", "edit")
@@ -389,12 +427,12 @@ def cli_worker(case):
 class C16(core.Check):
     prop = "C16"
     flavours = ["asan"]
-    rule = ("three families.  (1) contents (text, license, random, periodic 47/48/49, mixed; 200-900 KB so that >= 4 chunks form) x automatic chunking with default and custom "
+    rule = ("four families.  (1) contents (text, license, random, periodic 47/48/49, mixed; 200-900 KB so that >= 4 chunks form) x automatic chunking with default and custom "
             "min/max x none/zstd x dictionary; each written in one call, repeated, in 1-byte calls (smaller inputs), random call sizes, and calls ending "
             "at / one before / one after every chunk boundary of the first run; plus one edit (insert/delete/replace of 1,47,48,49,4096 bytes at start / "
             "middle / end / chunk seams +-1) for the locality clauses.  (2) hit-dense contents built with the tree's own buzhash table (lib/buz.py): refused hits 1..60 bytes "
             "below the effective minimum, second hits inside the 48-byte shadow of a refused one, hits at max-2..max+2, a hit every 48..400 bytes; same oracles, plus "
-            "write calls that end on / start with every crafted hit byte and edits around chunk seams.  (3) the zck tool with -s / -m -s / automatic chunking: split strings "
+            "write calls that end on / start with every crafted hit byte and edits around chunk seams.  (3) the same writer run with all CPUs and pinned to one CPU (chunks of several MiB included).  (4) the zck tool with -s / -m -s / automatic chunking: split strings "
             "at every alignment to its 32 KiB read blocks (straddling, back to back, partial matches), same bytes through a FIFO in controlled read() sizes, and the "
             "content shifted by k bytes (locality clauses over the chunk tables).  non-trivial = >= 4 data chunks")
     assumptions = ["chunk tables read through lib/zckref.py"]
@@ -467,6 +505,18 @@ class C16(core.Check):
                 out.append({"i": i, "content": ["dense:" + layout, size, i], "dense": {"layout": layout, "size": size, "table": ctx["table"]}, "cfg": cfg, "segs": segs,
                             "boundary_segs": True, "edit": [r.choice(["insert", "delete", "replace"]), r.randrange(0, size), r.choice([1, 47, 48, 49])],
                             "dict": r.choice([None, None, 4096, 300]), "zh": ctx["zh"]})
+        # the machine the writer runs on: one usable CPU versus all of them (chunks of several MiB included)
+        import shutil
+        if shutil.which("taskset") and len(os.sched_getaffinity(0)) >= 2:
+            specs = [({"comp": 2, "level": 3, "manual": True, "cmax": 64 << 20}, [3000000, "e", 1200000, "e"], 4400000),
+                     ({"comp": 2, "level": 1, "manual": False, "cmax": 8 << 20, "cmin": 1500000}, [1 << 20], 5000000),
+                     ({"comp": 2, "level": 3, "manual": False}, [65536], 600000)]
+            if not self.quick:
+                specs += [({"comp": 2, "level": 19, "manual": True, "cmax": 64 << 20}, [2500000, "e"], 2500000), ({"comp": 0, "manual": True, "cmax": 64 << 20}, [3000000, "e"], 3500000),
+                          ({"comp": 2, "level": 9, "manual": True, "cmax": 64 << 20, "dict": None}, [9000000, "e"], 9000000)]
+            for j, (cfg, seg, size) in enumerate(specs):
+                out.append({"kind": "affinity", "content": [r.choice(["text", "license", "mixed"]), size, 300000 + j], "cfg": cfg, "seg": seg, "cpu": sorted(os.sched_getaffinity(0))[j % 2], "zh": ctx["zh"]})
+            self.count("affinity_cases", len(specs))
         # the zck tool: split strings against its 32 KiB read blocks, read() sizes, shifted contents
         nc = 24 if self.quick else 600
         for j in range(nc):
